@@ -52,6 +52,7 @@ type frame struct {
 	phitemps         []value
 	visits           []int32 // per block, allocated on first back edge
 	isInit           bool
+	skipPhis         bool
 	depth            int
 }
 
@@ -421,6 +422,9 @@ func (e *Engine) visitInstr(fr *frame, instr ssa.Instruction) continuation {
 
 	case *ssa.If:
 		cond := fr.get(instr.Cond).(*Term)
+		if !cond.IsConst() && e.cfg.RegionMerge && e.initMode == 0 && e.tryMergeRegion(fr, instr, cond) {
+			return kJump
+		}
 		succ := 1
 		if e.branch(cond, fr, instr) {
 			succ = 0
@@ -646,13 +650,15 @@ type nativeFunc struct {
 }
 
 func (e *Engine) callSSA(caller *frame, callpos token.Pos, fn *ssa.Function, args []value, env []value) value {
-	if e.cfg.AutoMerge && e.initMode == 0 && len(fn.Blocks) > 1 && e.mergeFail[fn] < 2 && e.autoMergeable(fn) {
+	// Whether a merge is attempted must be a function of the path state only
+	// (never of engine history), or re-execution of a decision prefix on
+	// another worker would diverge.
+	if e.cfg.AutoMerge && e.initMode == 0 && len(fn.Blocks) > 1 && e.autoMergeable(fn) {
 		if _, isIntr := intrinsics[fn.String()]; !isIntr {
 			r, ok := e.runMerged(func() value { return e.callSSARaw(caller, callpos, fn, args, env) })
 			if ok {
 				return r
 			}
-			e.mergeFail[fn]++
 		}
 	}
 	return e.callSSARaw(caller, callpos, fn, args, env)
@@ -818,6 +824,11 @@ func (e *Engine) executePhis(fr *frame) []ssa.Instruction {
 			firstNonPhi = i
 			break
 		}
+	}
+	if fr.skipPhis {
+		// phis were evaluated (merged) by tryMergeRegion
+		fr.skipPhis = false
+		return instrs[firstNonPhi:]
 	}
 	if firstNonPhi > 0 {
 		phis := instrs[:firstNonPhi]
